@@ -534,10 +534,8 @@ pub fn get_mp3_metadata(entry: &DirEntry) -> Option<MP3Metadata> {
         return None;
     }
 
-    match mp3_metadata::read_from_file(entry.path()) {
-        Ok(mp3_meta) => Some(mp3_meta),
-        _ => None,
-    }
+    // the tag reader indexes past the end of some damaged tags
+    no_panic(|| mp3_metadata::read_from_file(entry.path())).and_then(Result::ok)
 }
 
 pub fn get_exif_metadata(entry: &DirEntry) -> Option<HashMap<String, String>> {
